@@ -55,7 +55,8 @@ def implicit_solves(rep, tier, timeout):
         for i in range(n):
             for j in range(n):
                 obs.append(oblig.Ob("dR/du[%d,%d] == K" % (i, j), lhs=S(Juu[i, j]), rhs=Kc[i, j], meta={"family": "FEM.linearize reports dR/du equal to the assembled stiffness matrix"}))
-        run_obligations(rep, "FEM linearize == K [%s]" % cn, obs, timeout, family=lambda ob: "FEM: " + ob.meta["family"])
+        run_obligations(rep, "FEM linearize == K [%s]" % cn, obs, timeout, family=lambda ob: "FEM: " + ob.meta["family"],
+                        replay=lambda ob, env, s=s, ch=ch: replay_fem_residual(s, ch))
         # solve_linear: forward J du = dr, reverse J^T dr = du, with the LU contract stub; K symmetric is a *proved* hypothesis
         symK = [eq(Kc[i, j], Kc[j, i]) for i in range(n) for j in range(i + 1, n) if Kc[i, j] is not Kc[j, i]]
         for vec_size in (1,):
@@ -167,6 +168,43 @@ def replay_fem_solve(s, ch, mode):
         lhs, rhs = Kn.T.dot(d_res["disp_aug"]), pre_out
     err = float(np.abs(lhs - rhs).max() / max(1e-30, np.abs(rhs).max()))
     return err > 1e-6, "real FEM.solve_linear(%s) with non-zero previous vector contents: |K%s x - b| / |b| = %.3g" % (mode, "" if mode == "fwd" else "^T", err)
+
+
+def replay_fem_residual(s, ch):
+    """the real FEM component on floats: apply_nonlinear gives K u - f and linearize reports K, for the K of a real chain"""
+    import openmdao.api as om
+    from openaerostruct.structures.assemble_k_group import AssembleKGroup
+    from openaerostruct.structures.fem import FEM
+
+    ny = s["mesh"].shape[1]
+    rng = np.random.default_rng(7)
+    nodes = np.stack([0.3 * np.arange(ny), -1.0 * np.arange(ny)[::-1], 0.1 * np.arange(ny)], axis=1).astype(float)
+    prob = om.Problem(reports=False)
+    prob.model.add_subsystem("k", AssembleKGroup(surface=s), promotes=["*"])
+    prob.model.add_subsystem("fem", FEM(surface=s), promotes=["*"])
+    prob.setup()
+    prob.set_val("nodes", nodes)
+    for n_, v in (("A", 1e-3), ("Iy", 1e-6), ("Iz", 2e-6), ("J", 3e-6)):
+        prob.set_val(n_, v * (1.0 + rng.random(ny - 1)))
+    prob.set_val("forces", np.concatenate([1e3 * rng.standard_normal(6 * ny), np.zeros(6)]))
+    prob.run_model()
+    comp = prob.model.fem
+    kt = np.array(prob.get_val("local_stiff_transformed"))
+    Kn = np.asarray(comp.assemble_CSC_K({"local_stiff_transformed": kt}).toarray())
+    n = Kn.shape[0]
+    u = rng.standard_normal(n) * 1e-3
+    f = np.array(prob.get_val("forces"), dtype=float)
+    R = {"disp_aug": np.zeros(n)}
+    comp.apply_nonlinear({"local_stiff_transformed": kt, "forces": f}, {"disp_aug": u}, R)
+    e1 = float(np.abs(R["disp_aug"] - (Kn.dot(u) - f)).max() / max(1.0, np.abs(f).max()))
+    sol = np.array(prob.get_val("disp_aug"), dtype=float)
+    e2 = float(np.abs(Kn.dot(sol) - f).max() / max(1.0, np.abs(f).max()))
+    J = prob.check_partials(out_stream=None, compact_print=True, includes=["fem"], method="fd", step=1e-6)
+    key = [k for k in J["fem"] if k[0].endswith("disp_aug") and k[1].endswith("disp_aug")][0]
+    Jr = np.asarray(J["fem"][key]["J_fwd"])
+    e3 = float(np.abs(Jr - Kn).max() / np.abs(Kn).max())
+    bad = e1 > 1e-9 or e2 > 1e-7 or e3 > 1e-9
+    return bad, "real FEM: |R - (K u - f)| = %.3g, |K u_solved - f| / |f| = %.3g, |dR/du reported - K| / |K| = %.3g" % (e1, e2, e3)
 
 
 def replay_sm_solve(ss, mode):
